@@ -19,6 +19,7 @@ import (
 )
 
 var current int
+var capMiB uint64 = 256
 
 func gmarsGoroutines() []string {
 	buf := make([]byte, 1<<20)
@@ -41,19 +42,34 @@ func runOne(rq wk.Request) wk.Response {
 		err error
 		pan string
 	}
-	done := make(chan result, 1)
+	par := rq.Par
+	if par < 1 {
+		par = 1
+	}
+	done := make(chan result, par)
 	start := time.Now()
-	go func() {
-		var r result
-		defer func() {
-			if p := recover(); p != nil {
-				r.pan = fmt.Sprintf("%v\n%s", p, debug.Stack())
-			}
-			done <- r
+	for k := 0; k < par; k++ {
+		go func() {
+			var r result
+			defer func() {
+				if p := recover(); p != nil {
+					r.pan = fmt.Sprintf("%v\n%s", p, debug.Stack())
+				}
+				done <- r
+			}()
+			r.wd, r.err = gmars.CompileWarrior(bytes.NewReader(rq.Text), cfg)
 		}()
-		r.wd, r.err = gmars.CompileWarrior(bytes.NewReader(rq.Text), cfg)
-	}()
+	}
 	r := <-done
+	for k := 1; k < par; k++ {
+		o := <-done
+		if o.pan != "" && r.pan == "" {
+			r.pan = o.pan
+		}
+		if (o.err != nil) != (r.err != nil) || !reflect.DeepEqual(o.wd, r.wd) {
+			rs.ParDiffer = fmt.Sprintf("one call returned (%v, err=%v), a simultaneous one (%v, err=%v)", r.wd, r.err, o.wd, o.err)
+		}
+	}
 	rs.ElapsedUs = time.Since(start).Microseconds()
 	rs.Panic = r.pan
 	if r.err != nil {
@@ -84,7 +100,7 @@ func main() {
 		for {
 			time.Sleep(50 * time.Millisecond)
 			runtime.ReadMemStats(&ms)
-			if ms.HeapAlloc > 256<<20 {
+			if ms.HeapAlloc > capMiB<<20 {
 				_ = enc.Encode(wk.Response{ID: current, OOM: true})
 				out.Flush()
 				os.Exit(3)
@@ -99,6 +115,10 @@ func main() {
 			return
 		}
 		current = rq.ID
+		capMiB = 256
+		if rq.CapMiB > 0 {
+			capMiB = uint64(rq.CapMiB)
+		}
 		rs := runOne(rq)
 		if len(rs.Leaked) > 0 {
 			// leaked goroutines would be reported again for the next case: start clean
@@ -108,5 +128,13 @@ func main() {
 		}
 		_ = enc.Encode(rs)
 		out.Flush()
+		// garbage of a big request must not be charged to the next one
+		var ms runtime.MemStats
+		runtime.ReadMemStats(&ms)
+		if ms.HeapAlloc > 32<<20 {
+			capMiB = 1 << 20
+			runtime.GC()
+			debug.FreeOSMemory()
+		}
 	}
 }
